@@ -17,6 +17,7 @@ import (
 	"io"
 	"net"
 	"net/http"
+	"os"
 	"sort"
 	"strconv"
 	"strings"
@@ -901,4 +902,29 @@ func (h *http2Client) do(r reqSpec) clEvent {
 	}
 	h.log.addCl(ev)
 	return ev
+}
+
+// establishedTo counts this host's TCP sockets in state ESTABLISHED whose REMOTE port is the given port, i.e. the
+// client-side ends of connections to a server on that port (the kernel's view, independent of either party's books).
+func establishedTo(port int) int {
+	b, err := os.ReadFile("/proc/net/tcp")
+	if err != nil {
+		return -1
+	}
+	n := 0
+	want := fmt.Sprintf(":%04X", port)
+	for _, ln := range strings.Split(string(b), "\n")[1:] {
+		f := strings.Fields(ln)
+		if len(f) < 4 {
+			continue
+		}
+		if strings.HasSuffix(f[2], want) && f[3] == "01" {
+			n++
+		}
+	}
+	return n
+}
+
+func (u *upstream) port() int {
+	return u.ln.Addr().(*net.TCPAddr).Port
 }
